@@ -12,7 +12,7 @@ stamps, join bookkeeping by reachability).
 import json
 
 RUNNING, WAITING, SUCCESS, ERROR = 'RUNNING', 'WAITING', 'SUCCESS', 'ERROR'
-DONE = (SUCCESS, ERROR)
+DONE = (SUCCESS, ERROR, 'SKIPPED')
 CMDS = ('fail', 'succeed', 'pause', 'noop')
 
 
@@ -52,11 +52,13 @@ def unflatten(ctx):
 
 
 def lookup(var, layers):
-    """layers: list of plain dicts in priority order."""
+    """layers: list of plain dicts in priority order; referring to a
+    variable nobody defined is an evaluation error (YAQL and Jinja with
+    strict undefined both fail)."""
     for d in layers:
         if var in d:
             return d[var]
-    return None
+    raise EvalError('undefined variable %s' % var)
 
 
 class Prog(object):
@@ -75,7 +77,7 @@ class Prog(object):
 
     def outbound(self, tname):
         s = []
-        for kind in ('on-success', 'on-error', 'on-complete'):
+        for kind in ('on-success', 'on-error', 'on-complete', 'on-skip'):
             for t in self.clause(tname, kind):
                 s.append(_target(t))
         return s
@@ -132,8 +134,13 @@ def _inst_key(i):
     return d
 
 
+SKIPPED = 'SKIPPED'
+
+
 class Model(object):
-    def __init__(self, prog, wf_input=None, results=None, env=None):
+    def __init__(self, prog, wf_input=None, results=None, env=None,
+                 skipped=()):
+        self.skipped = set(skipped)
         self.P = Prog(prog)
         self.input = dict(prog.get('input') or {})
         self.input.update(wf_input or {})
@@ -264,6 +271,8 @@ class Model(object):
         s.runs[key] = n + 1
         seq = self.results.get(key) or ['S']
         r = seq[min(n, len(seq) - 1)]
+        if inst['name'] in self.skipped:
+            return SKIPPED, None
         if r == 'S':
             return SUCCESS, key
         if isinstance(r, (list, tuple)) and r[0] == 'S':
@@ -290,8 +299,11 @@ class Model(object):
         inst['state'] = state
         self._glob = s.glob
         # publish
-        pub_spec = t.get('publish') if state == SUCCESS \
-            else t.get('publish-on-error')
+        if state == SKIPPED:
+            pub_spec = t.get('publish-on-skip')
+        else:
+            pub_spec = t.get('publish') if state == SUCCESS \
+                else t.get('publish-on-error')
         try:
             if pub_spec:
                 pub = self.eval_deep(pub_spec, self.layers(inst['ctx']), inst)
@@ -304,6 +316,32 @@ class Model(object):
                     del out_ctx[p]
                 flatten(var, val, iid, out_ctx)
             inst['out'] = out_ctx
+            # fail-on policy: a successful task becomes ERROR
+            fo = self._policy(name, 'fail-on')
+            if state == SUCCESS and fo is not None and \
+                    self.eval(fo, self.layers(out_ctx), inst):
+                state = ERROR
+                inst['state'] = ERROR
+            # retry policy (evaluated on every completion, before routing)
+            rp = self._policy(name, 'retry')
+            if rp and int(rp.get('count', 0)) > 0:
+                lay = self.layers(out_ctx)
+                cont = rp.get('continue-on')
+                brk = rp.get('break-on')
+                cont_v = self.eval(cont, lay, inst) if cont is not None \
+                    else None
+                brk_v = self.eval(brk, lay, inst) if brk is not None \
+                    else None
+                done_retries = inst.get('retry_no', 0)
+                remain = done_retries < int(rp['count'])
+                stop_cont = (state == SUCCESS and cont is None) or \
+                    (cont is not None and not cont_v)
+                broke = state == ERROR and bool(brk_v)
+                if remain and not broke and not stop_cont:
+                    inst['retry_no'] = done_retries + 1
+                    inst['state'] = RUNNING
+                    inst['published'] = pub
+                    return
             if s.wf != RUNNING:
                 inst['next'] = []
                 inst['handled'] = False
@@ -315,15 +353,23 @@ class Model(object):
                     g = _guard(tr)
                     if g is None or self.eval(g, lay, inst):
                         trans.append((_target(tr), 'on-error'))
-            if state == SUCCESS:
+            skip_empty = False
+            if state == SKIPPED:
+                for tr in self.P.clause(name, 'on-skip'):
+                    g = _guard(tr)
+                    if g is None or self.eval(g, lay, inst):
+                        trans.append((_target(tr), 'on-skip'))
+                skip_empty = not trans
+            if state == SUCCESS or skip_empty:
                 for tr in self.P.clause(name, 'on-success'):
                     g = _guard(tr)
                     if g is None or self.eval(g, lay, inst):
                         trans.append((_target(tr), 'on-success'))
-            for tr in self.P.clause(name, 'on-complete'):
-                g = _guard(tr)
-                if g is None or self.eval(g, lay, inst):
-                    trans.append((_target(tr), 'on-complete'))
+            if state != SKIPPED:
+                for tr in self.P.clause(name, 'on-complete'):
+                    g = _guard(tr)
+                    if g is None or self.eval(g, lay, inst):
+                        trans.append((_target(tr), 'on-complete'))
         except EvalError:
             # a failing expression turns the task and the workflow to ERROR
             inst['state'] = ERROR
@@ -356,6 +402,12 @@ class Model(object):
             s.flags.add('succeed_cmd')
         elif cmd == 'pause':
             s.wf = 'PAUSED'
+
+    def _policy(self, name, key):
+        t = self.P.tasks[name]
+        if t.get(key) is not None:
+            return t[key]
+        return (self.P.defaults or {}).get(key)
 
     def _route(self, s, src, tgt):
         t = self.P.tasks[tgt]
@@ -465,7 +517,9 @@ class Model(object):
                                 n.flags.add('data_conflict')
                             n.insts[iid]['trig'] = list(trig)
                             n.insts[iid]['ctx'] = ctx
-                            self._after_complete(n, iid, ERROR)
+                            self._after_complete(
+                                n, iid, SKIPPED if v['name'] in self.skipped
+                                else ERROR)
                             work.append(n)
                         changed = True
                         break
@@ -564,8 +618,9 @@ def _uniq(dicts):
     return out
 
 
-def allowed_outcomes(prog, wf_input=None, results=None, env=None):
-    return Model(prog, wf_input, results, env).run()
+def allowed_outcomes(prog, wf_input=None, results=None, env=None,
+                     skipped=()):
+    return Model(prog, wf_input, results, env, skipped).run()
 
 
 # ------------------------------------------------------------------ compare
